@@ -21,6 +21,10 @@ META = {
 }
 
 FINDINGS = {
+    "C17-double-cease-after-auto-destroy": "an auto-destroy site gives the caller's vigil back and does not take it again: the caller's deferred CeaseVigil "
+                                           "runs once more and the instance's counter ends at -1 — a vigil of another request on that instance is lost",
+    "C17-counter-leaks-on-early-exit": "a gateway handler takes a vigil (or the system lock) without deferring its release: leaving between the two statements "
+                                       "— every handler recovers panics — keeps the counter up for ever and every later drain of that instance blocks",
     "C17-destroy-locks-swamp-before-drain": "destroy takes s.mu.Lock() before WaitForActiveVigilsClosed(): a Save in flight holds its vigil and needs "
                                             "s.mu.RLock() — the writer waits for the destroyer's lock, the destroyer for the writer's vigil (AB/BA deadlock)",
     "C17-lost-wakeup": "CeaseVigil decrements the vigil counter without holding the condition variable's mutex: a decrement+broadcast that "
@@ -92,7 +96,7 @@ def run(ctx):
     K.lean_verdict(ctx)
     corrs = []
     if K.build_hx(ctx) and K.build_drv(ctx):
-        args = ["%s=%s" % (k, facts.get(k, "unknown")) for k in ("decrementUnderCondLock", "checkStrict", "closeCancels", "drainBeforeSwampMu")]
+        args = ["%s=%s" % (k, facts.get(k, "unknown")) for k in ("decrementUnderCondLock", "checkStrict", "closeCancels", "drainBeforeSwampMu", "autoDestroyRetakesVigil")]
         c = K.correspondence(ctx, "C17", args)
         corrs.append(("C17", args, c))
         # genuinely concurrent run of the real vigil; its hook log must be a trace of the model
